@@ -251,14 +251,14 @@ class Check:
         self.decided_by[decided_by] = self.decided_by.get(decided_by, 0) + 1
         return res, model, dt
 
-    def solve_int(self, constraints, timeout_ms=None, goal=(), small_first=False):
+    def solve_int(self, constraints, timeout_ms=None, goal=(), small_first=False, hint_vars=None):
         """the query translated exactly into non-linear integer arithmetic (mirsym.intify); a sat answer is mapped back to
         the original variables and re-validated against the original constraints"""
         from . import intify
         t0 = time.time()
         self.queries += 1
         budget = min(timeout_ms or self.timeout_ms, 30000)
-        res, payload, itf = intify.solve(list(constraints) + list(G.facts), budget, goal=list(goal), small_first=small_first)
+        res, payload, itf = intify.solve(list(constraints) + list(G.facts), budget, goal=list(goal), small_first=small_first, hint_vars=hint_vars)
         out = ('unknown', payload)
         if res == 'unsat':
             out = ('unsat', None)
@@ -272,9 +272,30 @@ class Check:
                 s.add(c)
             for name, (orig, val) in payload.items():
                 s.add(orig == z3.BitVecVal(val, orig.size()))
-            if s.check() == z3.sat:
+            rv = s.check()
+            if rv == z3.sat:
                 out = ('sat', s.model())
                 self.decided_by['z3 (integer translation)'] = self.decided_by.get('z3 (integer translation)', 0) + 1
+            elif rv == z3.unknown and goal:
+                # the pinned original query is itself undecided (exact-arithmetic function symbols): the values go to the
+                # native replay as a candidate; nothing is reported unless the real code confirms it
+                s2 = z3.Solver()
+                for name, (orig, val) in payload.items():
+                    s2.add(orig == z3.BitVecVal(val, orig.size()))
+                if s2.check() == z3.sat:
+                    out = ('sat', s2.model())
+                    self.decided_by['candidate from the integer query (replay decides)'] = \
+                        self.decided_by.get('candidate from the integer query (replay decides)', 0) + 1
+        elif res == 'candidate' and goal:
+            # values that satisfy a slice of the query: not a verdict, but worth replaying against the real code -- a
+            # counterexample is only ever reported after the native replay has confirmed it
+            s = z3.Solver()
+            for name, (orig, val) in payload.items():
+                s.add(orig == z3.BitVecVal(val, orig.size()))
+            if s.check() == z3.sat:
+                out = ('sat', s.model())
+                self.decided_by['candidate from a sliced integer query (replay decides)'] = \
+                    self.decided_by.get('candidate from a sliced integer query (replay decides)', 0) + 1
         dt = time.time() - t0
         self.solver_s += dt
         return out[0], out[1], dt
@@ -415,7 +436,8 @@ class Check:
         excl = [z3.Not(rt) for _, rt in region_terms]
         res = None
         if arith == 'int':
-            res, model, dt = self.solve_int(list(pc) + excl, goal=[neg], small_first=True)
+            hints = set(t.decl().name() for t in inputs.values() if z3.is_const(t) and t.decl().kind() == z3.Z3_OP_UNINTERPRETED)
+            res, model, dt = self.solve_int(list(pc) + excl, goal=[neg], small_first=True, hint_vars=hints or None)
             if res == 'unsat':
                 rec['translation'] = 'decided in pure integer arithmetic (bit-vectors as integers mod 2^w, quotients by division lemma)'
             elif res != 'sat':
